@@ -1064,6 +1064,8 @@ def b_str(interp, args, kwargs):
         m, _o = v.cls.lookup('__str__')
         if isinstance(m, FuncRef):
             return interp.call(m.bind(v), [])
+    if isinstance(v, Obj) and '__str__' in v.fields:
+        return interp.call(v.fields['__str__'], [])
     if isinstance(v, T) and interp.types.get(v) == 'str' and len(args) == 1:
         return v
     t = T('call', 'str', *[interp.termify(a) for a in args])
@@ -1296,6 +1298,24 @@ def b_iter(interp, args, kwargs):
     return T('call', 'iter', interp.termify(args[0]))
 
 
+def b_next(interp, args, kwargs):
+    it = args[0]
+    if isinstance(it, Obj):
+        f = interp.get_attr(it, '__next__', missing_ok=True)
+        if f is not None:
+            if len(args) == 1:
+                return interp.call(f, [])
+            try:
+                return interp.call(f, [])
+            except AbsRaise as r:
+                cls = interp.exc_class_of(r.exc)
+                if cls is not None and exc_is_subclass(
+                        cls, ExtRef('StopIteration')):
+                    return args[1]
+                raise
+    return NotImplemented
+
+
 def b_print(interp, args, kwargs):
     interp.effect('call', 'print', tuple(interp.termify(a) for a in args))
     return K(None)
@@ -1430,7 +1450,7 @@ BUILTINS = {
     'zip': b_zip, 'dict': b_dict, 'list': b_list, 'tuple': b_tuple,
     'set': b_set, 'sorted': b_sorted, 'all': b_all, 'any': b_any,
     'getattr': b_getattr, 'hasattr': b_hasattr, 'type': b_type,
-    'iter': b_iter, 'print': b_print,
+    'iter': b_iter, 'print': b_print, 'next': b_next,
     'struct.unpack': b_struct_unpack, 'struct.calcsize': b_struct_calcsize,
     're.compile': b_re_compile,
     'bin': b_pure('bin'), 'hex': b_pure('hex'), 'ord': b_pure('ord'),
